@@ -1,13 +1,178 @@
 (* C14 — field value types convert canonically and reject everything else.
-   Only statements; every proof is `exact <lemma>` (DESIGN 2.2). *)
+   Only statements; every proof is `exact <lemma>` (DESIGN 2.2).
+   Models: Codec/FixInt.v, Types/{FixBool,GoTime,FixTimestamp,FixFloat,FixString,FixDecimal}.v
+   Specifications (grammars, values; boolean, extracted as the oracle of stream `types`): Codec/FixIntSpec.v, Types/TypesSpec.v
+   Lemmas: Codec/FixIntProofs.v, Types/{FixBoolProofs,GoTimeProofs,FixTimestampProofs,FixFloatProofs}.v
+
+   Modelled, not verified (trusted, exercised by the correspondence stream): the fragments of Go's time.Parse /
+   Time.Format (Types/GoTime.v) and of strconv.ParseFloat's syntax and range verdict (Types/FixFloat.v).
+   Float VALUES are not modelled.  Decimal / udecimal (shopspring, quagmt libraries): executable models of the
+   library functions in Types/FixDecimal.v (modelled, not verified).  For FIXDecimal the write->read round trip is
+   proved of that model (half away from zero, Types/FixDecimalProofs.v); FIXDecimal read->write of canonical texts
+   and FIXUDecimal (truncation) are validated by the correspondence stream only, against dec_round_half_away /
+   udec_trunc_spec of TypesSpec.v. *)
 From Coq Require Import ZArith List Bool.
-From QF Require Import Base.Res Base.Bytes Codec.FixInt Codec.FixIntProofs.
+From QF Require Import Base.Res Base.Bytes Codec.FixInt Codec.FixIntProofs
+  Types.FixBool Types.FixString Types.FixBoolProofs
+  Types.GoTime Types.GoTimeProofs Types.FixTimestamp Types.TypesSpec Types.FixTimestampProofs
+  Types.FixFloat Types.FixFloatProofs Types.FixDecimal Types.FixDecimalProofs.
+Import ListNotations.
 Open Scope Z_scope.
 
-(* int: a text outside the grammar -?[0-9]+ is an error, and reading never panics or hangs *)
+(* ------------------------------------------------------------------ int *)
+
+(* a text outside the grammar -?[0-9]+ is an error *)
 Theorem c14_int_rejects_outside_grammar : forall d,
   int_grammar d = false -> exists e, fix_int_read d = Err e.
 Proof. exact atoi_rejects_nongrammar. Qed.
+Example c14_int_rejects_ex : int_grammar [49; 32] = false /\ int_grammar [] = false /\ int_grammar [45] = false.
+Proof. repeat split. Qed.
 
+(* reading never panics or hangs *)
 Theorem c14_int_read_total : forall d, total_res (fix_int_read d).
 Proof. exact atoi_total. Qed.
+
+(* up to 18 bytes (the fast path) a grammatical text is read as the number it denotes *)
+Theorem c14_int_read_value_short : forall d,
+  int_grammar d = true -> (length d <= 18)%nat -> fix_int_read d = Ok (int_value d).
+Proof. exact atoi_short_value. Qed.
+Example c14_int_read_value_short_ex :
+  int_grammar [45; 48; 52; 50] = true /\ int_value [45; 48; 52; 50] = -42.
+Proof. split; reflexivity. Qed.
+
+(* every grammatical text, of any length: its value when that is an int64, an error otherwise (no wrap-around) *)
+Theorem c14_int_read_value : forall d, int_grammar d = true ->
+  fix_int_read d = if in_int64b (int_value d) then Ok (int_value d) else Err E_RANGE.
+Proof. exact atoi_grammar_value. Qed.
+
+(* the long path (more than 18 bytes) accepts iff the value is within int64 *)
+Theorem c14_int_long_accepts_iff_in_range : forall d, int_grammar d = true -> (18 < length d)%nat ->
+  (fix_int_read d = Ok (int_value d) <-> in_int64 (int_value d)) /\
+  (~ in_int64 (int_value d) -> fix_int_read d = Err E_RANGE).
+Proof. exact atoi_long_accepts_iff. Qed.
+Example c14_int_long_ex :   (* "9223372036854775808" = 2^63 *)
+  let d := [57; 50; 50; 51; 51; 55; 50; 48; 51; 54; 56; 53; 52; 55; 55; 53; 56; 48; 56] in
+  int_grammar d = true /\ (18 < length d)%nat /\ int_value d = two63 /\ fix_int_read d = Err E_RANGE.
+Proof. vm_compute. repeat split. apply Nat.leb_le. reflexivity. Qed.
+
+(* accepted <=> grammar and int64 range, with the denoted value: for every byte string *)
+Theorem c14_int_read_iff : forall d z, fix_int_read d = Ok z <-> int_read_spec d = Some z.
+Proof. exact atoi_ok_iff. Qed.
+
+(* write then read *)
+Theorem c14_int_write_read : forall z, in_int64 z -> fix_int_read (fix_int_write z) = Ok z.
+Proof. exact atoi_itoa. Qed.
+Example c14_int_write_read_ex : in_int64 (- two63) /\ in_int64 (two63 - 1).
+Proof. unfold in_int64, two63. split; split; discriminate || reflexivity. Qed.
+
+(* read then write: a canonical text (no leading zeros, no "-0") is reproduced; Write only produces canonical texts *)
+Theorem c14_int_read_write : forall s, canonical_int s = true -> fix_int_write (int_value s) = s.
+Proof. exact itoa_canonical. Qed.
+Theorem c14_int_write_canonical : forall z, canonical_int (fix_int_write z) = true.
+Proof. exact itoa_is_canonical. Qed.
+Example c14_int_read_write_ex : canonical_int [45; 49; 48] = true /\ canonical_int [48] = true
+  /\ canonical_int [48; 49] = false /\ canonical_int [45; 48] = false.
+Proof. repeat split. Qed.
+
+(* ------------------------------------------------------------------ bool *)
+
+(* exactly "Y" and "N" are accepted *)
+Theorem c14_bool_read_iff : forall d b, fix_bool_read d = Ok b <-> d = (if b then [89] else [78]).
+Proof. exact fix_bool_read_ok_iff. Qed.
+Theorem c14_bool_rejects : forall d, d <> [89] -> d <> [78] -> fix_bool_read d = Err 1.
+Proof. exact fix_bool_read_rejects. Qed.
+Example c14_bool_rejects_ex : [121] <> [89] /\ [121] <> [78] /\ (@nil Z) <> [89].
+Proof. repeat split; discriminate. Qed.
+Theorem c14_bool_write_read : forall b, fix_bool_read (fix_bool_write b) = Ok b.
+Proof. exact fix_bool_write_read. Qed.
+Theorem c14_bool_read_write : forall d b, fix_bool_read d = Ok b -> fix_bool_write b = d.
+Proof. exact fix_bool_read_write. Qed.
+Example c14_bool_read_write_ex : fix_bool_read [78] = Ok false.
+Proof. reflexivity. Qed.
+
+(* ------------------------------------------------------------------ UTC timestamp
+   Grammar ts_grammarb p s (Types/TypesSpec.v): YYYYMMDD-HH:MM:SS, then nothing (p = 1 seconds), .sss (p = 0 millis),
+   .ssssss (p = 2 micros), .sssssssss (p = 3 nanos); valid proleptic Gregorian date of the years 0000..9999,
+   HH < 24, MM < 60, SS < 60 (time.Parse refuses a leap second 60).
+   ts_value p s = (unix seconds, nanoseconds). *)
+
+(* accepted <=> grammar, with the denoted instant: for every byte string *)
+Theorem c14_ts_read_iff : forall s t p,
+  timestamp_read s = Ok (t, p) <-> ts_grammarb p s = true /\ t = ts_value p s.
+Proof. exact timestamp_read_iff. Qed.
+Theorem c14_ts_read_grammar : forall p s, ts_grammarb p s = true -> timestamp_read s = Ok (ts_value p s, p).
+Proof. exact timestamp_read_grammar. Qed.
+Example c14_ts_read_grammar_ex : ts_grammarb 2 tsp_example_text = true
+  /\ ts_value 2 tsp_example_text = (1078099199, 123456000).
+Proof. exact tsp_example_grammar. Qed.
+
+(* write then read: the instant truncated to the written precision, for every instant of the years 0000..9999
+   and every precision value (a value other than 0..3 is written, and read back, as millis) *)
+Theorem c14_ts_write_read : forall t p, ts_in_rangeb t = true ->
+  timestamp_read (timestamp_write t p) = Ok (ts_trunc (ts_norm_prec p) t, ts_norm_prec p).
+Proof. exact timestamp_write_read. Qed.
+Example c14_ts_write_read_ex :
+  ts_in_rangeb (1078099199, 123456789) = true /\ ts_trunc 0 (1078099199, 123456789) = (1078099199, 123000000)
+  /\ ts_in_rangeb (TS_MIN_SEC, 0) = true /\ ts_in_rangeb (TS_MAX_SEC - 1, 999999999) = true.
+Proof. vm_compute. repeat split. Qed.
+
+(* what is written is of the grammar *)
+Theorem c14_ts_write_grammar : forall t p, ts_in_rangeb t = true ->
+  ts_grammarb (ts_norm_prec p) (timestamp_write t p) = true.
+Proof. exact timestamp_write_grammar. Qed.
+
+(* read then write: every text of the grammar is canonical *)
+Theorem c14_ts_read_write : forall p s, ts_grammarb p s = true -> timestamp_write (ts_value p s) p = s.
+Proof. exact timestamp_read_write. Qed.
+
+(* the calendar arithmetic both directions rest on: inverse for every day number / every valid date *)
+Theorem c14_days_civil_inverse : forall z,
+  gt_days_from_civil (fst (fst (gt_civil_from_days z))) (snd (fst (gt_civil_from_days z))) (snd (gt_civil_from_days z)) = z.
+Proof. exact gt_days_from_civil_inv. Qed.
+Theorem c14_civil_days_inverse : forall y m d, gt_valid_date y m d ->
+  gt_civil_from_days (gt_days_from_civil y m d) = (y, m, d).
+Proof. exact gt_civil_from_days_inv. Qed.
+Example c14_civil_days_inverse_ex : gt_valid_date 2000 2 29 /\ gt_days_from_civil 2000 2 29 = 11016
+  /\ ~ gt_valid_date 1900 2 29.
+Proof. unfold gt_valid_date. vm_compute. intuition discriminate. Qed.
+
+(* ------------------------------------------------------------------ float (acceptance only) *)
+
+(* accepted <=> optional '-', digits with at most one '.', at least one digit, and |value| < 2^1024 - 2^970 *)
+Theorem c14_float_read_iff : forall s,
+  float_read_ok s = true <-> float_grammarb s = true /\ float_in_rangeb s = true.
+Proof. exact float_read_ok_iff. Qed.
+Example c14_float_read_iff_ex :   (* "-.5" "1." in; "-" "." "-." "1-2" "1.2.3" "+1" "1e5" out *)
+  float_spec [45; 46; 53] = true /\ float_spec [49; 46] = true /\ float_spec [45] = false /\ float_spec [46] = false
+  /\ float_spec [45; 46] = false /\ float_spec [49; 45; 50] = false /\ float_spec [49; 46; 50; 46; 51] = false
+  /\ float_spec [43; 49] = false /\ float_spec [49; 101; 53] = false /\ float_spec [] = false.
+Proof. vm_compute. repeat split. Qed.
+
+(* ------------------------------------------------------------------ string / bytes *)
+Theorem c14_string_write_read : forall s, fix_string_read (fix_string_write s) = Ok s.
+Proof. exact fix_string_roundtrip. Qed.
+Theorem c14_string_read_write : forall d s, fix_string_read d = Ok s -> fix_string_write s = d.
+Proof. exact fix_string_rewrite. Qed.
+Theorem c14_bytes_write_read : forall s, fix_bytes_read (fix_bytes_write s) = Ok s.
+Proof. exact fix_bytes_roundtrip. Qed.
+Theorem c14_bytes_read_write : forall d s, fix_bytes_read d = Ok s -> fix_bytes_write s = d.
+Proof. exact fix_bytes_rewrite. Qed.
+
+(* ------------------------------------------------------------------ decimal (shopspring model) *)
+
+(* Decimal.Round as StringFixed uses it is rounding half away from zero, for every coefficient, exponent, scale *)
+Theorem c14_decimal_round_half_away : forall v e places,
+  dcm_round (v, e) places = (dec_round_half_away v e places, - places).
+Proof. exact dcm_round_spec. Qed.
+
+(* write then read: the value rounded half away from zero to the written scale (scale within int32) *)
+Theorem c14_decimal_write_read : forall v e scale, dcm_in_int32 (- scale) = true ->
+  decimal_read (decimal_write (v, e) scale) =
+  Ok (if 0 <? scale then (dec_round_half_away v e scale, - scale)
+      else (dec_round_half_away v e scale * 10 ^ (- scale), 0)).
+Proof. exact decimal_write_read. Qed.
+Example c14_decimal_write_read_ex :   (* 2.5 -> "3", -2.5 -> "-3", 0.125 at 2 -> "0.13", -0.004 at 2 -> "0.00", 1234 at -2 -> "1200" *)
+  dec_round_half_away 25 (-1) 0 = 3 /\ dec_round_half_away (-25) (-1) 0 = -3
+  /\ decimal_write (125, -3) 2 = [48; 46; 49; 51] /\ decimal_write (-4, -3) 2 = [48; 46; 48; 48]
+  /\ decimal_write (1234, 0) (-2) = [49; 50; 48; 48] /\ dcm_in_int32 (- 2) = true.
+Proof. vm_compute. repeat split. Qed.
